@@ -170,3 +170,56 @@ def classify(cond, polarity, name_pred):
     if name_pred(cond):
         return 'truthy' if polarity else 'falsy'
     return None
+
+
+def paths_to(stmts, target_pred, max_paths=256):
+    """condition lists of the paths through `stmts` (one loop body / function body) that reach a statement accepted by
+    target_pred; `continue` / `break` / `return` / `raise` end a path, nested loops are passed over as opaque statements;
+    plain local definitions are substituted into later conditions"""
+    found = []
+
+    def run(ss, env, conds):
+        live = [(env, conds)]
+        for s in ss:
+            nxt = []
+            for env_, conds_ in live:
+                nxt.extend(step(s, env_, conds_))
+            live = nxt
+            if len(live) + len(found) > max_paths:
+                raise Unsupported('too many paths')
+            if not live:
+                break
+        return live
+
+    def step(s, env, conds):
+        if not isinstance(s, (ast.If, ast.Try, ast.With, ast.For, ast.While)) and any(target_pred(x) for x in ast.walk(s)):
+            found.append((s, conds))
+            return [(env, conds)]
+        if isinstance(s, (ast.Return, ast.Raise, ast.Continue, ast.Break)):
+            return []
+        if isinstance(s, ast.Assign) and len(s.targets) == 1 and isinstance(s.targets[0], ast.Name):
+            e2 = dict(env)
+            e2[s.targets[0].id] = _subst(s.value, env)
+            return [(e2, conds)]
+        if isinstance(s, ast.If):
+            t = _subst(s.test, env)
+            return _split_test(t, conds, lambda c: run(s.body, env, c), lambda c: run(s.orelse, env, c))
+        if isinstance(s, ast.With):
+            return run(s.body, env, conds)
+        if isinstance(s, ast.Try):
+            res = []
+            for env2, c2 in run(s.body, env, conds):
+                res.extend(run(s.orelse, env2, c2))
+            for h in s.handlers:
+                mark = ast.Name(id='<exception %s>' % (norm(h.type) if h.type is not None else ''), ctx=ast.Load())
+                res.extend(run(h.body, env, conds + [(mark, True)]))
+            return res
+        if isinstance(s, (ast.For, ast.While)):
+            # a nested loop: its body may contain the target; conditions inside are local to it
+            inner = paths_to(s.body, target_pred, max_paths)
+            for st_, cs in inner:
+                found.append((st_, conds + cs))
+            return [(env, conds)]
+        return [(env, conds)]
+    run(stmts, {}, [])
+    return found
